@@ -15,7 +15,7 @@ import (
 
 func init() {
 	checks["C13"] = checkC13
-	explanations["C13"] = "Structural necessary conditions: (1) Sign1.Sign and Sign1.Verify hash a structure of the same type with the same constant context and the same source class per field (protected bucket re-serialised from Protected, external AAD from the parameter, payload from the object or the parameter), all fields present on both sides; (2) Sign stores the algorithm id whose hash it uses under AlgLabel in Protected before that bucket is serialised, Verify hashes with the id it parsed from Protected; (3) MacAlgorithm.NewMac is called only from Mac0.Digest (one routine serves creation and verification); (4) RFC8152Signer.Sign writes r and s with FillBytes into the two halves of a buffer of 2n bytes, n from the curve order; (5) Sign1.Verify returns true only as the result of ecdsa.Verify or rsa.VerifyPKCS1v15/VerifyPSS == nil; (6) the ECDSA signature is sliced at n only after len(signature) == 2n was established and the hash is taken only after the algorithm was found registered. Not decided: bit-level unforgeability; leading-zero behaviour at run time."
+	explanations["C13"] = "Structural necessary conditions: (1) Sign1.Sign and Sign1.Verify hash a structure of the same type with the same constant context and the same source class per field (protected bucket re-serialised from Protected, external AAD from the parameter, payload from the object or the parameter), all fields present on both sides; (2) Sign stores the algorithm id whose hash it uses under AlgLabel in Protected before that bucket is serialised, Verify hashes with the id it parsed from Protected; (3) MacAlgorithm.NewMac is called only from Mac0.Digest (one routine serves creation and verification); (4) RFC8152Signer.Sign writes r and s with FillBytes into the two halves of a buffer of 2n bytes, n from the curve order; (5) Sign1.Verify returns true only as the result of ecdsa.Verify or rsa.VerifyPKCS1v15/VerifyPSS == nil; (6) the ECDSA signature is sliced at n only after len(signature) == 2n was established and the hash is taken only after the algorithm was found registered. (7) a MAC whose Write XOR-accumulates into a state field (AES-CBC-MAC) finalises without copying into, storing to or partially copying that field. Not decided: bit-level unforgeability; leading-zero behaviour at run time."
 }
 
 // hashedLiteral finds, in fn, the struct literal that is CBOR-encoded into a
